@@ -260,6 +260,7 @@ extern "C" int harness_main()
 #endif
 	tcp::socket* cli_moved = nullptr; tcp::socket* srv_moved = nullptr;
 	int connected = -1, accepted = -1;
+	tcp::endpoint cli_ep;   // the connector's (ephemeral) local endpoint
 	acc.async_accept(srv, [&](error_code const& e)
 	{
 		accepted = ecv(e);
@@ -274,6 +275,7 @@ extern "C" int harness_main()
 	{
 		connected = ecv(e);
 		if (e) return;
+		cli_ep = cli.local_endpoint(ec);
 		if (moved == 1) { cli_moved = new tcp::socket(std::move(cli)); (DIR == 0 ? w.sock : r.sock) = cli_moved; cli_moved->non_blocking(true); if (DIR == 0) write_more(w); else if (!late_reader) read_more(r); return; }
 		cli.non_blocking(true);
 		if (DIR == 0) write_more(w); else if (!late_reader) read_more(r);
@@ -321,9 +323,12 @@ extern "C" int harness_main()
 #if REUSE
 	// second connection into the same accepted socket object: it must start with an empty stream.
 	// The first connection is torn down by the reader side closing while (possibly) data is unread.
-	{
-		r.stop = true;
-		tcp::socket cli2(cios);
+	// (declared at function scope: a read of the second connection may still be pending at teardown)
+	r.stop = true;
+	// the hop faults segments of the first connection only: whether the second connection makes progress after a
+	// loss is C06's subject, not this check's
+	if (drp) drp->budget = 0;
+	tcp::socket cli2(cios);
 		stream st2; st2.len = 5; for (int i = 0; i < 5; ++i) st2.data[i] = vp_sym_byte();
 		writer w2; reader r2;
 		w2.sock = &cli2; w2.st = &st2; w2.chunk = 5; w2.layout = 0; w2.close_when_done = false; w2.close_after = -1;
@@ -340,7 +345,7 @@ extern "C" int harness_main()
 		s.run();
 		vp_assert(st2.eof_seen, 42);
 		vp_reach(4);
-	}
+	r2.stop = true;
 	// a segment of the first connection that the hop still holds is released only now: it must vanish
 	for (int i = 0; i < DROPS + 1 && drp && drp->flush(); ++i) s.run();
 #endif
@@ -354,6 +359,17 @@ extern "C" int harness_main()
 	if (r.moved_to) r.moved_to->close(ec);
 	s.run();
 	delete cli_moved; delete srv_moved; delete r.moved_to;
+	// C11: closing the connector (moved or not) released its binding at once: the endpoint can be bound again
+	if (connected == 0)
+	{
+		tcp::socket again(cios);
+		again.open(tcp::v4(), ec);
+		again.bind(cli_ep, ec);
+		vp_assert(!ec, 29);
+		tcp::endpoint const got = again.local_endpoint(ec);
+		vp_assert(got == cli_ep, 29);
+		again.close(ec);
+	}
 	vp_reach(1);
 	if (st.received == st.len) vp_reach(2);
 	if (drp && (drp->dropped > 0 || drp->reordered > 0)) vp_reach(3);
